@@ -4,5 +4,6 @@ INVARIANT UnknownOnlyWhenEvenStep
 INVARIANT LinOK
 INVARIANT TriOK
 INVARIANT GeoOK
+INVARIANT GeoTOK
 INVARIANT Classified
 CHECK_DEADLOCK FALSE
